@@ -25,8 +25,9 @@ class Ctx:
 def run_check(prop, tier, seed, audit=True):
     try:
         mod = importlib.import_module('checks.%s' % prop)
-    except ImportError as e:
-        print('ANALYSIS-ERROR property=%s no check module: %s' % (prop, e))
+    except Exception as e:
+        traceback.print_exc()
+        print('ANALYSIS-ERROR property=%s check module cannot be loaded: %s' % (prop, e))
         return 2
     try:
         ctx = Ctx(prop, tier, seed)
